@@ -94,11 +94,55 @@ pub fn text_bytes(len: usize, salt: u8) -> Vec<u8> {
 pub fn quiet_panics() {
     std::panic::set_hook(Box::new(|info| {
         let msg = panic_message_from_info(info);
+        let first = LAST_PANIC.with(|l| l.borrow().clone());
+        let n = PANICS_IN_FLIGHT.with(|c| {
+            c.set(c.get() + 1);
+            c.get()
+        });
+        if n >= 2 && crate::alloc::in_subject() {
+            // a second panic while the first one is still unwinding (typically a destructor of the subject that panics
+            // again): the runtime aborts the process right after this hook. The abort is the subject's: report the case
+            // being run as a violation and stop (exit 1), instead of dying with SIGABRT and no verdict.
+            double_panic_verdict(first.as_deref().unwrap_or("?"), &msg);
+        }
         LAST_PANIC.with(|l| *l.borrow_mut() = Some(msg));
     }));
 }
 thread_local! {
     pub static LAST_PANIC: std::cell::RefCell<Option<String>> = const { std::cell::RefCell::new(None) };
+    static PANICS_IN_FLIGHT: std::cell::Cell<u32> = const { std::cell::Cell::new(0) };
+    /// the case the current thread is running, as a JSON text (set by the engines before each call into the subject)
+    static CASE_CTX: std::cell::RefCell<Option<String>> = const { std::cell::RefCell::new(None) };
+}
+/// per-run context: a JSON object text with "check" and configuration fields; the thread's case context is merged in
+static RUN_CTX: std::sync::Mutex<Option<String>> = std::sync::Mutex::new(None);
+pub fn set_run_ctx(v: Option<serde_json::Value>) {
+    *RUN_CTX.lock().unwrap() = v.map(|x| x.to_string());
+}
+pub fn set_case_ctx(v: Option<String>) {
+    let _ = CASE_CTX.try_with(|c| *c.borrow_mut() = v);
+}
+fn double_panic_verdict(first: &str, second: &str) -> ! {
+    let prop = crate::alloc::current_check();
+    let run = RUN_CTX.lock().ok().and_then(|g| g.clone()).unwrap_or_else(|| "null".into());
+    let case = CASE_CTX.try_with(|c| c.borrow().clone()).ok().flatten().unwrap_or_else(|| "null".into());
+    let sig = format!("{}/abort/panic-while-panicking", prop);
+    let what = format!("the subject panicked ({}) and panicked again while unwinding ({}): the process aborts", first, second);
+    let path = format!("/verif/replays/{}-abort-{}.json", prop, std::process::id());
+    let body = format!(
+        "{{\"property\": {}, \"signature\": {}, \"what\": {}, \"replay\": {{\"check\": \"abort-context\", \"run\": {}, \"case\": {}}}}}\n",
+        serde_json::Value::String(prop.clone()),
+        serde_json::Value::String(sig.clone()),
+        serde_json::Value::String(what.clone()),
+        run,
+        case
+    );
+    let _ = std::fs::create_dir_all("/verif/replays");
+    let _ = std::fs::write(&path, body);
+    crate::report::outln(&format!("VIOLATION property={} replay={}", prop, path));
+    crate::report::outln(&format!("  signature: {}", sig));
+    crate::report::outln(&format!("  what: {}", what));
+    std::process::exit(1);
 }
 fn panic_message_from_info(info: &std::panic::PanicHookInfo<'_>) -> String {
     let loc = info
@@ -120,6 +164,7 @@ pub fn catch<R>(f: impl FnOnce() -> R) -> Result<R, String> {
     LAST_PANIC.with(|l| *l.borrow_mut() = None);
     crate::alloc::subject_depth(1);
     let r = std::panic::catch_unwind(std::panic::AssertUnwindSafe(f));
+    PANICS_IN_FLIGHT.with(|c| c.set(0));
     crate::alloc::subject_depth(-1);
     match r {
         Ok(r) => Ok(r),
@@ -129,7 +174,9 @@ pub fn catch<R>(f: impl FnOnce() -> R) -> Result<R, String> {
 /// Same for the harness's own top level: not a call into the subject (see alloc::subject_depth).
 pub fn catch_harness<R>(f: impl FnOnce() -> R) -> Result<R, String> {
     LAST_PANIC.with(|l| *l.borrow_mut() = None);
-    match std::panic::catch_unwind(std::panic::AssertUnwindSafe(f)) {
+    let r = std::panic::catch_unwind(std::panic::AssertUnwindSafe(f));
+    PANICS_IN_FLIGHT.with(|c| c.set(0));
+    match r {
         Ok(r) => Ok(r),
         Err(_) => Err(LAST_PANIC.with(|l| l.borrow_mut().take()).unwrap_or_else(|| "panic".into())),
     }
